@@ -4,6 +4,7 @@ import LyModel.Merge.LemmasDupSibs
 import LyModel.Merge.LemmasCanon
 import LyModel.Merge.LemmasParents
 import LyModel.Merge.LemmasFlags2
+import LyModel.Merge.LemmasDI11
 /-!
 # C14 — merging and duplicating trees preserve content (property theorems)
 
@@ -17,9 +18,11 @@ generated tree (op `wf`).  Helper lemmas live in `LyModel/Merge/Lemmas*.lean`.
 |---------------------------------|------------------------------------------------------------------------------|----------------|
 | `merge_into_empty` (+`_eq_dup`) | merge into the empty target = copy of the source = `lyd_dup_siblings` + NEW   | all wf         |
 | `merge_destruct_eq_copy`        | moving (`LYD_MERGE_DESTRUCT`) and copying give the same tree; `_fails` without consistent flags | all (flags ok) |
-| `merge_idempotent_partial`      | merging the same source again changes nothing                                | source without key-less list / state leaf-list instances (full statement OPEN) |
-| `merge_contains_source`         | every source node is found by its path, explicit leaves with the source's value | same fragment |
-| `merge_keeps_untouched_target`  | a target node whose path the source does not contain is unchanged            | same fragment  |
+| `merge_idempotent` (`_partial`: the earlier fragment) | merging the same source again changes nothing              | all wf (key-less list / state leaf-list instances included) |
+| `merge_contains_source`         | every source node is found by its path, explicit leaves with the source's value | source without key-less list / state leaf-list instances |
+| `merge_contains_source_pos`     | … by positions: the `k`-th source instance of a class of equal instances is the `k`-th of the result | all wf |
+| `merge_keeps_untouched_target`  | a target node whose path the source does not contain is unchanged            | source without such instances, path without them |
+| `merge_keeps_untouched_target_pos` | … by positions                                                             | all wf         |
 | `merge_result_canonical`, `merge_result_canon_fixpoint`, `merge_result_wf` | the result is well-formed again (shape, order, uniqueness, flags) | all wf |
 | `dup_equal_recursive`, `_content`, `_with_flags`, `dup_no_meta`, `dup_shallow` | a duplicate is the original relabelled as the options say | all (flags ok) |
 | `dup_with_parents`              | the chain of ancestors with their keys and only the path to the node         | all            |
@@ -101,8 +104,9 @@ theorem merge_destruct_eq_copy_fails :
 
 /-! ## idempotence -/
 
-/-- **merge_idempotent** (fragment: the source has no instance of a key-less list / state leaf-list): merging the same
-source again changes nothing — not a flag, not the order.  Any well-formed target (it may contain such instances). -/
+/-- **merge_idempotent**, the earlier fragment (the source has no instance of a key-less list / state leaf-list) with
+its own, cache-free proof; the full statement is `merge_idempotent` below.  Merging the same source again changes
+nothing — not a flag, not the order.  Any well-formed target (it may contain such instances). -/
 theorem merge_idempotent_partial (S : Schema) (o : MergeOpts) (t s : List DNode) (ht : wfForest S t = true)
     (hs : wfForest S s = true) (hd : noDupInstL S s = true) : merge S o (merge S o t s) s = merge S o t s := by
   obtain ⟨ht1, _⟩ := wfSibs_parts ht
@@ -115,24 +119,40 @@ theorem merge_idempotent_partial (S : Schema) (o : MergeOpts) (t s : List DNode)
 example : wfForest exS exT = true ∧ wfForest exS exSrc = true ∧ noDupInstL exS exSrc = true ∧
     beqL (merge exS {} exT exSrc) exT = false := by decide
 
-/-
--- OPEN: merge_idempotent for sources with instances of key-less lists / state leaf-lists.
--- The C (and the model) match equal instances one to one through the duplicate-instance cache (`lyd_dup_inst_next`) and
--- append the surplus; after the first merge the target holds at least as many equal instances as the source, in the
--- same relative order, so the second merge matches them all and changes nothing.  The statement
---   theorem merge_idempotent (S o t s) : wfForest S t → wfForest S s → merge S o (merge S o t s) s = merge S o t s
--- is believed true and is evaluated on the implementation for every generated pair (law `idem`, including pairs with
--- repeated instances, exhaustively for all sequences over two values up to length 2 / 4); the proof needs the cache
--- invariant ("the k-th source instance of a class is matched with / created as the k-th target instance of the class")
--- carried through both merges and is not done.
---
--- OPEN: merge_contains_source / merge_keeps_untouched_target for sources with such instances: an instance of a
--- key-less list / state leaf-list has no path (libyang prints a position); the corresponding statement — the result
--- holds, per class of equal instances, max(#target, #source) of them, the first #target being the target's — needs the
--- same cache invariant.  Laws `contains` / `keeps` skip nodes in or below such instances; the model/implementation
--- correspondence covers them (state leaf-lists with repeated values and key-less lists in every generated schema with
--- state data, plus the exhaustive sequences).
--/
+/-- a schema with a state leaf-list and a key-less list, and two trees with repeated instances:
+`leaf-list sl {config false;}  list kl {config false; leaf a;}` -/
+def exDS : Schema := { modName := "exd", nodes := [
+  { depth := 0, kind := .leaflist, name := "sl", config := false, userord := true, ty := .uint8 },
+  { depth := 0, kind := .list, name := "kl", nkeys := 0, config := false, userord := true },
+  { depth := 1, kind := .leaf, name := "a", config := false } ] }
+
+/-- target: `sl = [1, 2]`, one `kl {a = x}` -/
+def exDT : List DNode := [.term 0 {} [] [49], .term 0 {} [] [50], .inner 1 {} [] [.term 2 {} [] [120]]]
+
+/-- source: `sl = [2, 1, 1]`, `kl {a = x}` twice, `kl {a = y}` -/
+def exDSrc : List DNode := [.term 0 {} [] [50], .term 0 {} [] [49], .term 0 {} [] [49],
+  .inner 1 {} [] [.term 2 {} [] [120]], .inner 1 {} [] [.term 2 {} [] [120]], .inner 1 {} [] [.term 2 {} [] [121]]]
+
+/-- **merge_idempotent** (full statement): merging the same source a second time changes nothing — not a value, not a
+flag, not the order, not the number of instances — for *every* well-formed target and source, instances of key-less lists
+and state leaf-lists included.  Those are matched one to one through the duplicate-instance cache (`lyd_dup_inst_next`):
+after the first merge the `k`-th source instance of a class of equal instances has been matched with — or linked as — the
+`k`-th target instance of that class (`LemmasDI8`: the cache entry of the class is `(min P N, N)` after `P` processed source
+instances, the target then holds `max P N`), a new instance is linked behind all instances equal to it
+(`insertNode_after_class`), and a matched instance keeps its content (`sub_strip`); so the second merge, starting with an
+empty cache, hands out exactly these nodes again (`absDK_noop`) and finds nothing to change below them. -/
+theorem merge_idempotent (S : Schema) (o : MergeOpts) (t s : List DNode) (ht : wfForest S t = true)
+    (hs : wfForest S s = true) : merge S o (merge S o t s) s = merge S o t s := by
+  have habs := merge_absorbs S o t s ht hs
+  obtain ⟨c', hnoop⟩ := absDK_noop S o s [] false { cur := (mergeKids S o [] false s { cur := t }).cur } []
+    (cacheOK_nil S _) habs
+  simp only [merge]
+  rw [hnoop]
+
+/-- non-vacuity: repeated instances on both sides, the merge adds one `sl = 1`, one `kl {a = x}` and `kl {a = y}` -/
+example : wfForest exDS exDT = true ∧ wfForest exDS exDSrc = true ∧ noDupInstL exDS exDSrc = false ∧
+    beqL (merge exDS {} exDT exDSrc) exDT = false ∧ (merge exDS {} exDT exDSrc).length = 6 := by decide
+
 
 /-! ## the result contains the source -/
 
@@ -141,7 +161,8 @@ example : wfForest exS exT = true ∧ wfForest exS exSrc = true ∧ noDupInstL e
 in the result (`descend`) finds a node `n` of `x`'s schema node and identity; if `x` is a leaf that is explicit — or any
 leaf under `LYD_MERGE_DEFAULTS` — `n` has `x`'s value and default flag (and, with `LYD_MERGE_WITH_FLAGS`, all its flags).
 A default leaf of the source without `LYD_MERGE_DEFAULTS` is also found, with the target's value if the target had one.
-Fragment: source without key-less list / state leaf-list instances (those have no identity; see OPEN above). -/
+Fragment: source without key-less list / state leaf-list instances (those have no identity; `merge_contains_source_pos`
+addresses them by position). -/
 theorem merge_contains_source (S : Schema) (o : MergeOpts) (t s : List DNode) (ht : wfForest S t = true)
     (hs : wfForest S s = true) (hd : noDupInstL S s = true) (chain : List DNode) (x : DNode)
     (hc : IsChain S chain false s) (hx : chain.getLast? = some x) :
@@ -181,6 +202,48 @@ example :
       (descend exS [cS, lS, vS] (merge exS {} exT exSrc)).map (·.val) = some [121] := by
   decide
 
+/-- **merge_contains_source, by positions** (all well-formed sources, nodes in or below instances of key-less lists /
+state leaf-lists included — those have no (schema node, keys) path, libyang prints a position).  A source node `x` is
+addressed by the chain of source nodes leading to it, each with its *position* (`IsChainK`): for an instance of a
+key-less list / state leaf-list the number of equal siblings standing before it, 0 for every other node.  Following the
+same positions in the result (`descendK`: at each level the `k`-th of the nodes the lookup for the chain node accepts)
+finds a node `n` of `x`'s schema node and identity — for a duplicate-instance node: with `x`'s content
+(`lyd_compare_single(…, LYD_COMPARE_FULL_RECURSION)`), i.e. the `k`-th source instance of a class of equal instances is
+the `k`-th instance of that class in the result; for an explicit leaf (or any leaf under `LYD_MERGE_DEFAULTS`) with
+`x`'s value and default flag.  For chains without duplicate-instance nodes all positions are 0 and this is
+`merge_contains_source`. -/
+theorem merge_contains_source_pos (S : Schema) (o : MergeOpts) (t s : List DNode) (ht : wfForest S t = true)
+    (hs : wfForest S s = true) (chain : List (DNode × Nat)) (x : DNode) (k : Nat)
+    (hc : IsChainK S chain false s) (hx : chain.getLast? = some (x, k)) :
+    ∃ n, descendK S chain (merge S o t s) = some n ∧ n.sid = x.sid ∧ matchP S x n = true ∧
+      (S.isDupInst x.sid = true → eqContent n x = true) ∧
+      (x.isTerm = true → (S.isKind x.sid .leaf && (o.defaults || !x.flags.dflt)) = true →
+        n.val = x.val ∧ n.flags.dflt = x.flags.dflt ∧ (o.withFlags = true → n.flags = x.flags)) := by
+  obtain ⟨n, h1, h2, h3⟩ := descendK_of_absorbed S o chain false s _ x k (merge_absorbs S o t s ht hs) hc hx
+  refine ⟨n, h1, matchP_sid h2, h2, fun hd => by rw [← matchP_dup S x n hd]; exact h2, ?_⟩
+  intro hterm hcond
+  cases x with
+  | inner => simp [DNode.isTerm] at hterm
+  | term xs xf xm xv =>
+    simp only [absΦD] at h3
+    have e : n.sid = xs := matchP_sid h2
+    exact h3 (by rw [e]; exact hcond)
+
+/-- non-vacuity: the third `sl` of the source (`sl = 1`, one equal sibling before it) is the second `sl = 1` of the
+result — the target had only one —, and the leaf below the second `kl {a = x}` of the source is found below the second
+such instance of the result -/
+example :
+    let v := DNode.term 0 {} [] [49]
+    let l := DNode.inner 1 {} [] [.term 2 {} [] [120]]
+    let a := DNode.term 2 {} [] [120]
+    IsChainK exDS [(v, 1)] false exDSrc ∧ (descendK exDS [(v, 1)] exDT).isNone = true ∧
+      (descendK exDS [(v, 1)] (merge exDS {} exDT exDSrc)).map (·.val) = some [49] ∧
+      IsChainK exDS [(l, 1), (a, 0)] false exDSrc ∧ (descendK exDS [(l, 1), (a, 0)] exDT).isNone = true ∧
+      (descendK exDS [(l, 1), (a, 0)] (merge exDS {} exDT exDSrc)).map (·.flags.new) = some true := by
+  refine ⟨⟨[.term 0 {} [] [50], .term 0 {} [] [49]], _, rfl, by decide⟩, by decide, by decide,
+    ⟨⟨[.term 0 {} [] [50], .term 0 {} [] [49], .term 0 {} [] [49], .inner 1 {} [] [.term 2 {} [] [120]]], _, rfl,
+      by decide⟩, ⟨[], [], rfl, by decide⟩⟩, by decide, by decide⟩
+
 /-! ## the result keeps what the source does not touch -/
 
 /-- **merge_keeps_untouched_target**: take any node `y` of the target, addressed by the chain of target nodes leading to
@@ -206,6 +269,40 @@ example :
       (descend exS [cT, ll2] exSrc).isNone = true ∧
       (descend exS [cT, ll2] (merge exS {} exT exSrc)).map (·.val) = some [50] := by
   decide
+
+/-- **merge_keeps_untouched_target, by positions** (all well-formed trees, nodes in or below instances of key-less lists
+/ state leaf-lists included).  A target node `y` is addressed by the chain of target nodes leading to it (no list keys),
+each with its position among the siblings its own lookup accepts (`IsChainT`): for an instance of a key-less list / state
+leaf-list the number of equal instances before it, 0 for every other node of a well-formed tree.  If the source does not
+contain that path (`descendK … s = none`: at some level it has no `k`-th such node — e.g. it holds fewer equal instances
+than the target), then the same positions lead, in the result, to `y` itself: the whole subtree with its values, flags,
+metadata and order, unchanged.  Together with `merge_contains_source_pos`: per class of equal instances the result holds
+the target's instances first — the `k`-th merged with the `k`-th of the source if there is one, else untouched — then the
+surplus of the source.  For chains without duplicate-instance nodes this is `merge_keeps_untouched_target`. -/
+theorem merge_keeps_untouched_target_pos (S : Schema) (o : MergeOpts) (t s : List DNode) (ht : wfForest S t = true)
+    (hs : wfForest S s = true) (chain : List (DNode × Nat)) (y : DNode) (k : Nat) (hc : IsChainT S chain t)
+    (hck : ∀ c ∈ chain, S.isKey c.1.sid = false) (hy : chain.getLast? = some (y, k))
+    (hn : descendK S chain s = none) : descendK S chain (merge S o t s) = some y := by
+  simp only [wfForest, wfSibs, Bool.and_eq_true] at ht hs
+  obtain ⟨⟨⟨⟨t1, _⟩, t3⟩, t4⟩, _⟩ := ht
+  obtain ⟨⟨⟨⟨s1, _⟩, s3⟩, s4⟩, s5⟩ := hs
+  exact keepK_chain S o chain none s [] false { cur := t } y k ⟨t1, t3, t4⟩ rfl
+    (fun c hc' => ⟨(shapeAll_iff S none s).1 s1 c hc', (ordAll_iff S s).1 s4 c hc', (flagsOkL_iff s).1 s5 c hc'⟩)
+    s3 hc hck hy (by simpa [procList] using hn)
+
+/-- non-vacuity (`exDSrc` as the target, `exDT` as the source): the target's second `sl = 1` and the leaf below its
+second `kl {a = x}` have no counterpart in the source — it has one of each — and are found where they were -/
+example :
+    let v := DNode.term 0 {} [] [49]
+    let l := DNode.inner 1 {} [] [.term 2 {} [] [120]]
+    let a := DNode.term 2 {} [] [120]
+    IsChainT exDS [(v, 1)] exDSrc ∧ (descendK exDS [(v, 1)] exDT).isNone = true ∧
+      (descendK exDS [(v, 1)] (merge exDS {} exDSrc exDT)).map (·.val) = some [49] ∧
+      IsChainT exDS [(l, 1), (a, 0)] exDSrc ∧ (descendK exDS [(l, 1), (a, 0)] exDT).isNone = true ∧
+      (descendK exDS [(l, 1), (a, 0)] (merge exDS {} exDSrc exDT)).map (·.val) = some [120] := by
+  refine ⟨⟨[.term 0 {} [] [50], .term 0 {} [] [49]], _, rfl, by decide⟩, by decide, by decide,
+    ⟨⟨[.term 0 {} [] [50], .term 0 {} [] [49], .term 0 {} [] [49], .inner 1 {} [] [.term 2 {} [] [120]]], _, rfl,
+      by decide⟩, ⟨[], [], rfl, by decide⟩⟩, by decide, by decide⟩
 
 /-! ## the result is in canonical order -/
 
